@@ -806,6 +806,7 @@ class Interp:
         self.frames = []
         self.opts = opts or {}
         self.direct_calls = []     # user callables invoked without awaitify on the impl side
+        self.guards = []           # handler class names of the try bodies in execution (driver.user_exc_class)
         self.unawaited = []
         self.await_gaps = []
         self.neutral_calls = []
@@ -929,13 +930,16 @@ class Interp:
         resp = yield Ev("Call", fn, tuple(args), tuple(sorted(kwargs.items(), key=lambda kv: kv[0])), site=site)
         ctx.evseq += 1
         kind, payload = resp
-        if direct:
+        if direct and not (fn.flavour == "corofn" and getattr(fn, "inspected", False)):
             if kind == "ret":
                 return payload
             raise PyRaise(payload)
+        # through awaitify, or a callable the code found to be a coroutine function and calls directly: the outcome is
+        # delivered when the result is awaited (jobs that declare flavour="corofn" themselves answer with awaitables)
         ua = UserAwaitable((kind, payload), ctx.evseq, fn)
         self.unawaited.append(ua)
-        self.neutral_calls.append((fn.name, site))
+        if not direct:
+            self.neutral_calls.append((fn.name, site))
         return ua
 
     def instantiate(self, cls, args, kwargs):
@@ -1256,6 +1260,9 @@ class Interp:
         return r
 
     def hasattr(self, o, name):
+        if isinstance(o, Opaque) and name == "__await__":
+            # a user value may or may not be awaitable (a Task, a Future, ...): an unknown predicate of the value
+            return self.ctx.branch(z3.Function("is_awaitable", Val, z3.BoolSort())(o.t))
         try:
             self.getattr(o, name)
             return True
@@ -1632,9 +1639,23 @@ class Frame:
 
     def s_Try(self, s):
         sig = None
+        # ordinary exception classes named by the handlers: while the body runs, an injected user failure may be
+        # of one of them (driver.user_exc_class)
+        named = []
+        for h in s.handlers:
+            ts = h.type.elts if isinstance(h.type, ast.Tuple) else ([h.type] if h.type is not None else [])
+            for t in ts:
+                if isinstance(t, ast.Name) and t.id in ORDINARY_EXC:
+                    named.append(t.id)
         try:
             try:
-                yield from self.exec_block(s.body)
+                if named:
+                    self.i.guards.append(named)
+                try:
+                    yield from self.exec_block(s.body)
+                finally:
+                    if named:
+                        self.i.guards.remove(named)
             except PyRaise as pr:
                 handled = False
                 for h in s.handlers:
